@@ -234,7 +234,7 @@ func c10(r *eng.Run) {
 				return
 			}
 			seenClass[cls] = true
-			wc := append([]byte(nil), w...)
+			wc := eng.Exact(w)
 			for _, buf := range []*rjson.Buffer{nil, &sweepBuf} {
 				st := eng.ExploreChoices(func(c *eng.Chooser) {
 					bad, exp, got, trace := checkHostile(kind, wc, buf, c.Choose)
@@ -262,7 +262,7 @@ func c10(r *eng.Run) {
 		check: func(w []byte, a *ref.PDA) (string, bool, string, string) {
 			eng.Beat(w)
 			apiRuns++
-			wc := append([]byte(nil), w...)
+			wc := eng.Exact(w)
 			bad, got := apiSweep(wc)
 			if !bytes.Equal(wc, w) {
 				return "input-modified", false, fmt.Sprintf("%q", w), fmt.Sprintf("%q", wc)
@@ -350,6 +350,11 @@ func scaleInputs(thorough bool) map[string][]byte {
 			closed := append(append(append([]byte{}, open...), '1'), bytes.Repeat([]byte(u[1]), n)...)
 			out[fmt.Sprintf("%s/d=%d/closed", name, d)] = closed
 		}
+	}
+	// finished siblings before every level (a recycled child reader is used at each level): far
+	// beyond the limit, where unbounded recursion would exhaust the stack
+	for name, u := range map[string][2]string{"arr-sib": {"[[],", "]"}, "obj-sib": {`{"a":{},"b":`, "}"}, "arr-sib2": {`[[1],[`, "]]"}} {
+		out[fmt.Sprintf("%s/d=3000000/open", name)] = bytes.Repeat([]byte(u[0]), 3000000)
 	}
 	size := 1 << 20
 	if thorough {
